@@ -176,13 +176,15 @@ func compileMapKey(typ *runtime.Type, structName, fieldName string, structTypeTo
 		return nil, err
 	}
 	for {
-		switch t := dec.(type) {
+		switch dec.(type) {
 		case *stringDecoder, *interfaceDecoder:
 			return dec, nil
 		case *boolDecoder, *intDecoder, *uintDecoder, *numberDecoder:
 			return newWrappedStringDecoder(typ, dec, structName, fieldName), nil
 		case *ptrDecoder:
-			dec = t.dec
+			// a pointer is not a valid key type: decoding the key text with the
+			// decoder of the pointed-to type would store it in the pointer itself
+			return newInvalidDecoder(typ, structName, fieldName), nil
 		default:
 			return newInvalidDecoder(typ, structName, fieldName), nil
 		}
